@@ -15,23 +15,23 @@ property checks inside the mode-C loops.
 """
 import random
 from explore import Job, run_jobs, generic_search, replay_with_monitor
-from csrlib import (Reg, Field, BankInst, SramInst, ArrayInst, STORAGE, STATUS, RAW, build_reg, spec_of, lean_regs,
-                    bus_write)
+from csrlib import (Reg, Field, BankInst, SramInst, ArrayInst, SocArrayInst, STORAGE, STATUS, RAW, build_reg, spec_of,
+                    lean_regs, bus_write, build_guarded, InstanceError)
 
 FMT = "adr, re, we, dat_w [per master], then (dev_we_k, dev_dat_k) per register; SRAM: adr, re, we, dat_w, page"
 FINDING_ATOMIC_LITTLE = "C12-atomic-little-ordering"
 
 
-def S(size=1, **kw):
-    return Reg(STORAGE, size, **kw)
+def S(size=1, n=None, **kw):
+    return Reg(STORAGE, size, n=n, **kw)
 
 
-def T(size=1, **kw):
-    return Reg(STATUS, size, **kw)
+def T(size=1, n=None, **kw):
+    return Reg(STATUS, size, n=n, **kw)
 
 
-def R(size=1, **kw):
-    return Reg(RAW, size, **kw)
+def R(size=1, n=None, **kw):
+    return Reg(RAW, size, n=n, **kw)
 
 
 def bank_sets_8():
@@ -99,85 +99,122 @@ def random_regs(rng, bw, n):
 def jobs(tier, seed=0):
     quick = tier == "quick"
     J = []
-    A = lambda mk, **kw: J.append(Job("A", mk, max_states=20000 if quick else 400000, **kw))
-    B = lambda mk, **kw: J.append(Job("B", mk, cycles=2500 if quick else 20000, runs=1 if quick else 4, **kw))
+    budget = 420.0 if quick else 2400.0
+
+    def mk(ctor, name, *a, **kw):
+        def make():
+            ctor.budget_s = budget
+            return build_guarded(name, ctor, *a, **kw)
+        return make
+    A = lambda ctor, name, *a, **kw: J.append(Job("A", mk(ctor, name, *a, **kw), max_states=20000 if quick else 400000))
+    B = lambda ctor, name, *a, **kw: J.append(Job("B", mk(ctor, name, *a, **kw), cycles=2500 if quick else 20000,
+                                                  runs=1 if quick else 4))
+    BA = lambda ctor, name, *a, **kw: J.append(Job("B", mk(ctor, name, *a, **kw), cycles=1000 if quick else 4000,
+                                                   runs=1 if quick else 2))
+    hv = harvest()
+    # ---- B, long ones first (the pool hands jobs out in list order): realistic register sets through the real array
+    for bw in (8, 32):
+        for ordering in ("big", "little"):
+            BA(ArrayInst, "arrayB/%d/%s/timer+uart+spi+wdt" % (bw, ordering),
+               [(nm, regs, [(32, 16, False, None)] if nm == "uart" else []) for nm, regs in hv],
+               {"timer": 0, "uart": 1, "spi": 2, "wdt": 5}, {("uart", 0): 3},
+               bw=bw, ordering=ordering, paging=0x800, nmasters=1 if ordering == "big" else 2)
+    # the array as a real SoC builds it (SoC.do_finalize glue: paging/ordering/width forwarding, bank numbers)
+    BA(SocArrayInst, "socB/8/little/paging0x400", bw=8, paging=0x400, ordering="little")
+    BA(SocArrayInst, "socB/32/big/paging0x1000", bw=32, paging=0x1000, ordering="big")
+    # the same peripherals written as AutoCSR modules (get_csrs(sort=True): fixed locations, reserved fillers,
+    # registers in a child module, memories found by get_memories), non-default paging and address width
+    BA(ArrayInst, "arrayB/8/big/autocsr+fixed-n",
+       [("p", [S(9), T(3, n=6), S(17, atomic=True, n=0), R(8), S(1, wfd=True)], [(8, 40, False, None)]),
+        ("q", [T(64), S(3, n=3)], [])],
+       {"p": 6, "q": 1}, {("p", 0): 7}, bw=8, ordering="big", paging=0x80, aw=10, style="autocsr", child=2)
+    BA(ArrayInst, "arrayB/32/little/autocsr+fixed-n",
+       [("p", [S(65, atomic=True), T(33, n=3), S(32, reset=0xFFFFFFFF), R(32)], [(64, 6, False, [2 ** 64 - 1, 5])])],
+       {"p": 3}, {("p", 0): 0}, bw=32, ordering="little", paging=0x100, aw=12, nmasters=2, style="autocsr", child=1)
+    # ---- A
     for ordering in ("big", "little"):
         for nm, regs in bank_sets_8():
             dv = (0x3C3C3C3C3C,) if (quick and nm == "st17a_wfd") else (0x3C3C3C3C3C, 0xFFFFFFFFFF)
-            A(lambda nm=nm, regs=regs, ordering=ordering, dv=dv:
-              BankInst("bank8/%s/%s" % (ordering, nm), regs, bw=8, ordering=ordering, paging=0x20, address=1,
-                       dev_values=dv, monitor_atomic=not is_atomic_little(ordering, regs, 8)))
+            A(BankInst, "bank8/%s/%s" % (ordering, nm), regs, bw=8, ordering=ordering, paging=0x20, address=1,
+              dev_values=dv, monitor_atomic=not is_atomic_little(ordering, regs, 8))
         for nm, regs in bank_sets_32():
-            A(lambda nm=nm, regs=regs, ordering=ordering:
-              BankInst("bank32/%s/%s" % (ordering, nm), regs, bw=32, ordering=ordering, paging=0x20, address=2,
-                       data_values=(0xA5A5A5A5,), dev_values=(0x1C3C3C3C3,),
-                       monitor_atomic=not is_atomic_little(ordering, regs, 32)))
+            A(BankInst, "bank32/%s/%s" % (ordering, nm), regs, bw=32, ordering=ordering, paging=0x20, address=2,
+              data_values=(0xA5A5A5A5,), dev_values=(0x1C3C3C3C3C3C3C3C3,),
+              monitor_atomic=not is_atomic_little(ordering, regs, 32))
+        # corners: 4-word atomic register; more than 64 bits on a 32-bit bus; narrow address bus with the bank at the
+        # last page; bank number 0
+        regs = [S(32, atomic=True)]
+        A(BankInst, "bank8/%s/st32a-4words" % ordering, regs, bw=8, ordering=ordering, paging=0x20, address=1,
+          data_values=(0xA5,), monitor_atomic=not is_atomic_little(ordering, regs, 8))
+        regs = [S(65, atomic=True, wfd=True, reset=2 ** 64 + 0xFFFFFFFF), T(64)]
+        A(BankInst, "bank32/%s/st65a_wfd+sta64" % ordering, regs, bw=32, ordering=ordering, paging=0x40, address=0,
+          data_values=(0xFFFFFFFF,), dev_values=(0x1A5A5A5A5FFFFFFFF,), alias=False, monitor_atomic=not is_atomic_little(ordering, regs, 32))
+        A(BankInst, "bank16/%s/st17+sta16" % ordering, [S(17, reset=0x1FFFF), T(16)], bw=16, ordering=ordering, paging=0x40,
+          address=5, data_values=(0xA5A5,), dev_values=(0x1C3C3C3C3,))
+        A(BankInst, "bank8/%s/aw6-last-page" % ordering, [S(9), T(9)], bw=8, ordering=ordering, paging=0x20, address=7, aw=6,
+          data_values=(0xA5,))
     if not quick:
         for ordering in ("big", "little"):
             for nm, regs in [("st3+st9a_wfd+st1", [S(3, reset=5), S(9, atomic=True, wfd=True), S(1)]),
                              ("st9_wfd+sta9rw", [S(9, wfd=True), T(9, wfd=True)]),
                              ("st8a+st9+raw3+sta1", [S(8, atomic=True), S(9), R(3), T(1)])]:
-                A(lambda nm=nm, regs=regs, ordering=ordering:
-                  BankInst("bank8/%s/%s" % (ordering, nm), regs, bw=8, ordering=ordering, paging=0x20, address=1,
-                           monitor_atomic=not is_atomic_little(ordering, regs, 8)))
+                A(BankInst, "bank8/%s/%s" % (ordering, nm), regs, bw=8, ordering=ordering, paging=0x20, address=1,
+                  monitor_atomic=not is_atomic_little(ordering, regs, 8))
             for nm, regs in [("st33a", [S(33, atomic=True, wfd=True)]), ("st17+sta16+st1", [S(17), T(16), S(1)])]:
-                A(lambda nm=nm, regs=regs, ordering=ordering:
-                  BankInst("bank16/%s/%s" % (ordering, nm), regs, bw=16, ordering=ordering, paging=0x40, address=5,
-                           data_values=(0xA5A5, 0x5A5A), dev_values=(0x1C3C3C3C3,),
-                           monitor_atomic=not is_atomic_little(ordering, regs, 16)))
-        A(lambda: SramInst("sram/4x16-on-8/staging", 16, 4, paging=0x40, data_values=(0xA5,)))
-        A(lambda: SramInst("sram/8x8/paged2", 8, 8, paging=0x10, data_values=(0xA5,)))
-        A(lambda: ArrayInst("array/little/2banks+mem/2masters",
-                            [("a", [S(9, atomic=True)], []), ("b", [T(3)], [(8, 2, False, None)])],
-                            {"a": 0, "b": 2}, {("b", 0): 3}, bw=8, ordering="little", paging=0x20, nmasters=2,
-                            data_values=(0xA5,)))
+                A(BankInst, "bank16/%s/%s" % (ordering, nm), regs, bw=16, ordering=ordering, paging=0x40, address=5,
+                  data_values=(0xA5A5, 0x5A5A), dev_values=(0x1C3C3C3C3,),
+                  monitor_atomic=not is_atomic_little(ordering, regs, 16))
+        A(SramInst, "sram/4x16-on-8/staging", 16, 4, paging=0x40, data_values=(0xA5,))
+        A(SramInst, "sram/8x8/paged2", 8, 8, paging=0x10, data_values=(0xA5,))
+        A(ArrayInst, "array/little/2banks+mem/2masters",
+          [("a", [S(9, atomic=True)], []), ("b", [T(3)], [(8, 2, False, None)])],
+          {"a": 0, "b": 2}, {("b", 0): 3}, bw=8, ordering="little", paging=0x20, nmasters=2, data_values=(0xA5,))
     # bank whose words exactly fill / overflow its page (paging 8 -> 2 words per bank): the third word is unreachable
-    A(lambda: BankInst("bank8/big/overflow-page", [S(17)], bw=8, ordering="big", paging=8, address=1))
-    A(lambda: BankInst("bank8/big/default-paging", [S(9), T(1)], bw=8, ordering="big", paging=0x800, address=3,
-                       extra_adrs=(0x1ff + (3 << 9), 0x3fff)))
+    A(BankInst, "bank8/big/overflow-page", [S(17)], bw=8, ordering="big", paging=8, address=1)
+    A(BankInst, "bank8/big/default-paging", [S(9), T(1)], bw=8, ordering="big", paging=0x800, address=3,
+      extra_adrs=(0x1ff + (3 << 9), 0x3fff))
+    # the constructors' own default paths (bus=None -> Interface(), default paging/ordering/address)
+    A(BankInst, "bank8/big/constructor-defaults", [S(9, atomic=True), R(3)], default_bus=True)
     # memory windows
-    A(lambda: SramInst("sram/4x8", 8, 4, paging=0x800))
-    A(lambda: SramInst("sram/4x8/paged", 8, 4, paging=8))
-    A(lambda: SramInst("sram/4x8/ro", 8, 4, paging=0x20, read_only=True, init=[1, 2, 3, 4]))
-    A(lambda: SramInst("sram/2x16-on-8/staging", 16, 2, paging=0x20, init=[0x1234]))
-    A(lambda: SramInst("sram/3x8/odd-depth", 8, 3, paging=0x20, init=[1, 2, 3]))
-    A(lambda: SramInst("sram/4x4-on-8/narrow", 4, 4, paging=0x20))
+    A(SramInst, "sram/4x8", 8, 4, paging=0x800)
+    A(SramInst, "sram/4x8/paged", 8, 4, paging=8)
+    A(SramInst, "sram/4x8/ro", 8, 4, paging=0x20, read_only=True, init=[1, 2, 3, 4])
+    A(SramInst, "sram/2x16-on-8/staging", 16, 2, paging=0x20, init=[0x1234])
+    A(SramInst, "sram/3x8/odd-depth", 8, 3, paging=0x20, init=[1, 2, 3])
+    A(SramInst, "sram/4x4-on-8/narrow", 4, 4, paging=0x20)
+    A(SramInst, "sram/2x12-on-8/partial-top-word", 12, 2, paging=0x20, init=[0xABC])
+    A(SramInst, "sram/6x8/paged-nonpow2", 8, 6, paging=0x10, data_values=(0xA5,))
+    A(SramInst, "sram/4x8/bus_read_only-attr", 8, 4, paging=0x20, read_only=True, init=[9, 8, 7, 6], via="bus_read_only")
+    A(SramInst, "sram/4x8/constructor-defaults", 8, 4, address=2, via="default_bus")
+    A(SramInst, "sram/4x8/by-size", 8, 4, paging=0x20, init=[4, 3], via="size")
     # bank arrays (tiny: the array netlist steps ~1k cycles/s)
     for ordering in ("big", "little"):
-        A(lambda ordering=ordering:
-          ArrayInst("array/%s/2banks" % ordering, [("a", [S(9, atomic=True)], []), ("b", [T(3), S(1, wfd=True)], [])],
-                    {"a": 0, "b": 2}, {}, bw=8, ordering=ordering, paging=0x20, data_values=(0xA5,)))
-    A(lambda: ArrayInst("array/big/bank+paged-mem", [("a", [S(1)], [(8, 4, False, None)])],
-                        {"a": 1}, {("a", 0): 0}, bw=8, ordering="big", paging=8, data_values=(0xA5,)))
-    A(lambda: ArrayInst("array/big/shared-2masters", [("a", [S(3)], []), ("b", [T(3)], [])],
-                        {"a": 1, "b": 2}, {}, bw=8, ordering="big", paging=0x20, nmasters=2, data_values=(0xA5,)))
+        A(ArrayInst, "array/%s/2banks" % ordering, [("a", [S(9, atomic=True)], []), ("b", [T(3), S(1, wfd=True)], [])],
+          {"a": 0, "b": 2}, {}, bw=8, ordering=ordering, paging=0x20, data_values=(0xA5,))
+    A(ArrayInst, "array/big/bank+paged-mem", [("a", [S(1)], [(8, 4, False, None)])],
+      {"a": 1}, {("a", 0): 0}, bw=8, ordering="big", paging=8, data_values=(0xA5,))
+    A(ArrayInst, "array/big/shared-2masters", [("a", [S(3)], []), ("b", [T(3)], [])],
+      {"a": 1, "b": 2}, {}, bw=8, ordering="big", paging=0x20, nmasters=2, data_values=(0xA5,))
+    A(ArrayInst, "array/big/autocsr-fixed-n", [("a", [S(3), T(1, n=3)], []), ("b", [S(1)], [(8, 2, True, [7, 9])])],
+      {"a": 2, "b": 1}, {("b", 0): 3}, bw=8, ordering="big", paging=0x10, aw=8, data_values=(0xA5,), style="autocsr",
+      child=1)
     # ---- B
-    hv = harvest()
-    BA = lambda mk: J.append(Job("B", mk, cycles=1000 if quick else 4000, runs=1 if quick else 2))
-    for bw in (8, 32):
-        for ordering in ("big", "little"):
-            BA(lambda bw=bw, ordering=ordering:
-              ArrayInst("arrayB/%d/%s/timer+uart+spi+wdt" % (bw, ordering),
-                        [(nm, regs, [(32, 16, False, None)] if nm == "uart" else []) for nm, regs in hv],
-                        {"timer": 0, "uart": 1, "spi": 2, "wdt": 5}, {("uart", 0): 3},
-                        bw=bw, ordering=ordering, paging=0x800, nmasters=1 if ordering == "big" else 2))
     rng = random.Random(seed * 31 + 5)
     for k in range(4 if quick else 12):
         bw = rng.choice((8, 8, 16, 32))
         ordering = rng.choice(("big", "little"))
         regs = random_regs(rng, bw, rng.randint(1, 6))
-        address = rng.randrange(0, 31)
-        B(lambda k=k, bw=bw, ordering=ordering, regs=regs, address=address:
-          BankInst("bankB/%d/%s/random%d" % (bw, ordering, k), regs, bw=bw, ordering=ordering, paging=0x800,
-                   address=address, monitor_atomic=not is_atomic_little(ordering, regs, bw)))
-    B(lambda: SramInst("sramB/64x32-on-32", 32, 64, bw=32, paging=0x80))
-    B(lambda: SramInst("sramB/64x32-on-8/paged", 32, 64, bw=8, paging=0x80))
-    B(lambda: SramInst("sramB/5x4-on-8/paged-odd", 4, 5, bw=8, paging=0x10))
-    B(lambda: SramInst("sramB/1024x32-on-32/paged", 32, 1024, bw=32, paging=0x800, init=list(range(7, 300, 3))))
-    # long jobs first (the pool hands jobs out in list order): real bank arrays, then the big product spaces
-    heavy = [j for j in J if j.kw.get("cycles") in (1000, 4000)]
-    rest = [j for j in J if j not in heavy]
-    return heavy + rest
+        paging = rng.choice((0x800, 0x800, 0x400, 0x100, 0x1000))
+        aw = rng.choice((14, 14, 12, 16))
+        address = rng.randrange(0, (1 << aw) // (paging // 4))
+        B(BankInst, "bankB/%d/%s/random%d" % (bw, ordering, k), regs, bw=bw, ordering=ordering, paging=paging, aw=aw,
+          address=address, monitor_atomic=not is_atomic_little(ordering, regs, bw))
+    B(SramInst, "sramB/64x32-on-32", 32, 64, bw=32, paging=0x80)
+    B(SramInst, "sramB/64x32-on-8/paged", 32, 64, bw=8, paging=0x80)
+    B(SramInst, "sramB/5x4-on-8/paged-odd", 4, 5, bw=8, paging=0x10)
+    B(SramInst, "sramB/100x64-on-32/nonpow2-depth", 64, 100, bw=32, paging=0x100, aw=12, init=[2 ** 64 - 1, 2 ** 63 + 1])
+    B(SramInst, "sramB/1024x32-on-32/paged", 32, 1024, bw=32, paging=0x800, init=list(range(7, 300, 3)))
+    return J
 
 
 # ---------------------------------------------------------------------------------------------------------
@@ -415,22 +452,131 @@ def correspond(ctx):
                 "the bank/window or a device-side write, or (Python-level) the call places at least one fixed item / "
                 "resolves a field list; counted per distinct (state, input) pair")
     ctx.extra_trusted = ["harness/csrlib.py: drives/observes the real CSR objects (storage/status/re/we/fields, bus) by "
-                         "object attribute, builds the Lean `open` line from the real CSRBankArray's own bank list"]
+                         "object attribute; the model's description (bank order, register order, widths, pages) is derived from the "
+                         "constructor parameters, never read back from the objects built"]
     ctx.jobs = jobs(ctx.tier, ctx.seed)
     corpus_dis = run_corpus(ctx)
     if corpus_dis:
         ctx.log("corpus: %d disagreements" % len(corpus_dis))
     ctx.log("%d hardware jobs" % len(ctx.jobs))
-    dis, bad = run_jobs(ctx, ctx.jobs)
-    ctx.log("hardware jobs done: %d disagreements" % len(dis))
     extra = []
+    try:
+        dis, bad = run_jobs(ctx, ctx.jobs)
+    except Exception as e:
+        # a changed implementation could not be built/driven (or ran away): a broken tie, reported with the instance
+        # name and the input at hand -- the Python-level checks below still run
+        import traceback
+        dis = []
+        extra.append({"kind": "correspondence-exception", "instance": str(e).split(":")[0].replace("instance ", ""),
+                      "what": str(e)[:1500], "traceback": traceback.format_exc()[-2500:]})
+        ctx.log("hardware jobs raised: %s" % (str(e)[:300],))
+    ctx.log("hardware jobs done: %d disagreements" % len(dis))
+    # every mode-A instance terminates exhaustively on the unchanged tree: one that no longer does (state explosion,
+    # time-out) has not been compared completely
+    for i in ctx.cov.instances:
+        if i.get("mode") == "A" and not i.get("exhaustive") and not any(getattr(d, "inst_name", None) == i["instance"] for d in dis):
+            extra.append({"kind": "incomplete-exploration", "instance": i["instance"],
+                          "what": "exhaustive co-exploration did not complete (%s states, %s transitions)" % (i.get("states"), i.get("transitions"))})
     quick = ctx.tier == "quick"
+    correspond_directed(ctx, extra)
     correspond_sort(ctx, extra, 200 if quick else 3000)
+    correspond_gather(ctx, extra, 40 if quick else 400)
     correspond_fields(ctx, extra, 300 if quick else 3000)
     correspond_layout(ctx, extra, 60 if quick else 600)
     ctx.log("python-level differential done: %d disagreements" % len(extra))
     ctx.modec = extra
     return corpus_dis + dis + extra
+
+
+def correspond_directed(ctx, out):
+    """Directed observations the random drivers never make: a status register that nobody drives reads back its reset
+    value (word by word, both orderings, also composed from field resets); simulation helper generators of
+    `csr_bus.Interface` drive the bus as documented."""
+    from explore import impl_step
+    n_ok = 0
+    for ordering in ("big", "little"):
+        for bw, reg, expect_val in ((8, T(20, reset=0xABCDE), 0xABCDE),
+                                    (32, T(40, reset=0x12_3456789A), 0x12_3456789A),
+                                    (8, Reg(STATUS, 1, fields=[Field("a", 3, reset=5), Field("b", 2, offset=9, reset=2)]), 5 | (2 << 9))):
+            inst = build_guarded("directed/status-reset/%d/%s" % (bw, ordering), BankInst, [reg], bw=bw, ordering=ordering,
+                                 paging=0x40, address=2)
+            n = inst.netlist
+            size = reg.eff_size()
+            nw = -(-size // bw)
+            got = 0
+            for a in range(nw):
+                # drive the bus only: the status signal keeps its reset value
+                n.set(inst.bus.adr, (2 << inst.pbits) + a); n.set(inst.bus.re, 1); n.set(inst.bus.we, 0); n.settle(); n.tick()
+                word = n.getu(inst.bus.dat_r)
+                j = (nw - 1 - a) if ordering == "big" else a
+                if word >> min(bw, size - j * bw):
+                    out.append({"kind": "monitor:status word %d reads %#x, wider than its %d bits" % (j, word, min(bw, size - j * bw)),
+                                "instance": inst.name})
+                got |= word << (j * bw)
+            if got != expect_val:
+                out.append({"kind": "monitor:undriven status reads %#x, expected its reset value %#x" % (got, expect_val),
+                            "instance": inst.name, "ordering": ordering, "bw": bw})
+            n_ok += 1
+    ctx.cov.add_cases("directed: undriven status reads its reset value", n_ok, n_ok, exhaustive=True)
+
+
+def correspond_gather(ctx, out, n_cases):
+    """`AutoCSR.get_csrs` through the real gatherer with nested modules: items of child modules are prefixed and
+    merged, everything is ordered by creation (DUID), `autocsr_exclude` is honoured, then `sort=True` places fixed
+    items.  Expected order: creation order of the non-excluded registers, then the model's placement."""
+    from migen import Module
+    from litex.soc.interconnect import csr
+    rng = ctx.rng
+    done = 0
+    for _ in range(n_cases):
+        class M(Module, csr.AutoCSR):
+            pass
+        top, kid, grand = M(), M(), M()
+        L = rng.randint(1, 7)
+        created = []
+        names = ["w", "c", "x", "a", "m", "b", "k"]
+        rng.shuffle(names)
+        excluded = set()
+        for k in range(L):
+            where = rng.choice((top, top, kid, grand))
+            fixed = rng.choice([None, None, rng.randint(0, L + 2)])
+            o = csr.CSRStorage(rng.choice((1, 9)), name=names[k], n=fixed) if rng.random() < 0.7 else csr.CSR(1, name=names[k], n=fixed)
+            setattr(where, names[k], o)
+            if where is top and rng.random() < 0.15:
+                excluded.add(names[k])
+            else:
+                created.append((o, fixed, where))
+        kid.g = grand
+        top.kid = kid
+        if excluded:
+            top.autocsr_exclude = excluded
+        fx = [f for (_, f, _) in created]
+        try:
+            res = top.get_csrs(sort=True)
+            real = "ok " + " ".join(str(next((i + 1 for i, (o, _, _) in enumerate(created) if o is x), 0)) for x in res)
+            pref = {id(top): "", id(kid): "kid_", id(grand): "kid_g_"}
+            for x in res:
+                hit = next(((o, w) for (o, _, w) in created if o is x), None)
+                if hit and not x.name.startswith(pref[id(hit[1])]):
+                    out.append({"kind": "monitor:register %r of a child module lacks its prefix %r" % (x.name, pref[id(hit[1])]),
+                                "instance": "AutoCSR nested get_csrs"})
+            if len({x.name for x in res}) != len(res):
+                out.append({"kind": "monitor:two gathered registers share the name", "instance": "AutoCSR nested get_csrs",
+                            "names": [x.name for x in res]})
+            slots = [next((i for i, (o, _, _) in enumerate(created) if o is x), None) for x in res]
+            msg = _sort_oracle(fx, slots)
+            if msg:
+                out.append({"kind": "monitor:" + msg, "instance": "AutoCSR nested get_csrs", "fixed": fx})
+        except ValueError:
+            real = "conflict"
+        except IndexError:
+            real = "indexerror"
+        a = ctx.lean.call("sort", *[0 if f is None else f + 1 for f in fx]) if fx else "ok "
+        if a.strip() != real.strip():
+            out.append({"kind": "correspondence", "instance": "AutoCSR nested get_csrs(sort=True)", "fixed": fx,
+                        "real": real, "model": a})
+        done += 1
+    ctx.cov.add_cases("AutoCSR nested modules: get_csrs(sort=True) order / prefixes / exclude", done, done)
 
 
 # ---------------------------------------------------------------------------------------------------------
@@ -470,7 +616,7 @@ def probes(ctx):
 
 
 def search(ctx, disagreements, proof_info):
-    for d in disagreements:
+    for d in list(disagreements) + list(getattr(ctx, "modec", [])):
         if isinstance(d, dict) and d.get("kind", "").startswith("monitor:"):
             return {"instance": d["instance"], "input": {k: v for k, v in d.items() if k not in ("kind", "instance")},
                     "monitor": d["kind"][8:]}
@@ -490,7 +636,9 @@ def search(ctx, disagreements, proof_info):
     saved = ctx.lean
     try:
         ctx.lean = _NoLean()
+        correspond_directed(ctx, extra)
         correspond_sort(ctx, extra, 2000)
+        correspond_gather(ctx, extra, 300)
         correspond_fields(ctx, extra, 2000)
         correspond_layout(ctx, extra, 200)
     except Exception:
